@@ -12,25 +12,12 @@ theorem sinv_init (input : Bytes) (flags : Nat) : SInv (sqliInit input flags) :=
   simp only [sqliInit, List.mem_replicate] at ht
   rw [ht.2]; exact tokF_default
 
-/-- **`fold` never errs** except by exhausting the fuel of its main loop -/
-theorem fold_ok (s : State) (hs : SInv s) :
-    (∃ n s', fold s = .ok (n, s') ∧ SInv s' ∧ s'.input = s.input ∧ n ≤ 7) ∨ fold s = .error .fuel := by
-  unfold fold
-  obtain ⟨more, s1, h1, hs1, hi1, hc1⟩ := skipLoop_ok (s.input.length + 2) { s with cur := 0 }
-    ⟨hs.1, hs.2.1, hs.2.2⟩ rfl (by show s.input.length - s.pos + 1 < s.input.length + 2; omega)
-  simp only [h1, bind, Except.bind, pure, Except.pure]
-  cases more with
-  | false =>
-    simp only [Bool.not_false, ↓reduceIte]
-    exact Or.inl ⟨_, _, rfl, hs1, hi1, by omega⟩
-  | true =>
-    simp only [Bool.not_true, Bool.false_eq_true, ↓reduceIte]
-    rcases foldLoop_ok (foldFuel s1.input.length) { s := s1, pos := 1, left := 0, more := true, lastComment := {} }
-      ⟨hs1, Nat.zero_le _, by show 1 ≤ 6; omega, tokF_default⟩ with ⟨n, f', h2, h3, h4, h5⟩ | h
-    · simp only [h2]
-      exact Or.inl ⟨_, _, rfl, h3, by rw [h4]; exact hi1, h5⟩
-    · simp only [h]
-      exact Or.inr trivial
+theorem init_empty (input : Bytes) (flags : Nat) :
+    ∀ j t, j ≠ 0 → (sqliInit input flags).tv[j]? = some t → t.cat = 0 := by
+  intro j t _ h
+  have : t ∈ (sqliInit input flags).tv := List.mem_of_getElem? h
+  simp only [sqliInit, List.mem_replicate] at this
+  rw [this.2]
 
 /-- weak invariant that survives the empty-backtick re-categorisation at the end of `fingerprint` -/
 def SInvW (s : State) : Prop := s.tv.length = 8 ∧ ∀ t ∈ s.tv, TokInv t
@@ -90,7 +77,7 @@ open LibInj
 def FpInv (input : Bytes) (st : State) : Prop :=
   st.input = input ∧
   (st.fingerprint = [88] ∨
-    (SInvW st ∧ ∃ n, n ≤ 7 ∧ st.fingerprint = (st.tv.take n).map (·.cat) ∧ (n ≤ 2 → SInv st)))
+    (SInvW st ∧ ∃ n, n ≤ 7 ∧ st.fingerprint = (st.tv.take n).map (·.cat) ∧ (n ≤ 2 → SInv st ∧ (n ≠ 0 → XFin st))))
 
 theorem tvSetW (s : State) (hs : SInvW s) (i : Nat) (hi : i < 8) (t : Token) (ht : TokInv t) :
     ∃ s', tvSet s i t = .ok s' ∧ SInvW s' ∧ s'.input = s.input ∧ s'.tv = s.tv.set i t := by
@@ -102,14 +89,11 @@ theorem tvSetW (s : State) (hs : SInvW s) (i : Nat) (hi : i < 8) (t : Token) (ht
   · exact hs.2 x h
   · rw [h]; exact ht
 
-/-- **`fingerprint` never errs** except by exhausting the fuel of `fold`'s main loop -/
+/-- **`fingerprint` is total** -/
 theorem fingerprint_ok (input : Bytes) (flags : Nat) :
-    (∃ st, fingerprint input flags = .ok st ∧ FpInv input st) ∨ fingerprint input flags = .error .fuel := by
+    ∃ st, fingerprint input flags = .ok st ∧ FpInv input st := by
   unfold fingerprint
-  rcases fold_ok (sqliInit input flags) (sinv_init input flags) with ⟨n, s1, h1, hs1, hi1, hn⟩ | h
-  rotate_left
-  · right; simp only [h, bind, Except.bind]
-  left
+  obtain ⟨n, s1, h1, hs1, hi1, hn, hxf⟩ := fold_ok (sqliInit input flags) (sinv_init input flags) (init_empty input flags)
   have hin : s1.input = input := by rw [hi1]; rfl
   simp only [h1, bind, Except.bind, pure, Except.pure]
   -- the empty-backtick re-categorisation
@@ -140,6 +124,6 @@ theorem fingerprint_ok (input : Bytes) (flags : Nat) :
   · simp only [hb]
     refine ⟨_, rfl, hi2, Or.inr ⟨⟨hs2.1, hs2.2⟩, n, hn, ?_, ?_⟩⟩
     · simp
-    · intro h; rw [hsame h]; exact ⟨hs1.1, hs1.2.1, hs1.2.2⟩
+    · intro h; rw [hsame h]; exact ⟨⟨hs1.1, hs1.2.1, hs1.2.2⟩, fun h0 => hxf h0⟩
 
 end LibInj.Sqli
